@@ -1,0 +1,21 @@
+//go:build verif
+
+// Read-only export for the verification harness in /verif (harness/cmd/c11). This file is only
+// compiled with -tags verif; it adds no behaviour and touches no existing code.
+
+package fox
+
+// VerifRecorded runs the matcher the way ServeHTTP's first lookup does (non-lazy, on a pooled context) and
+// returns what it left behind in the context: the node found, the tsr flag and copies of c.params and c.tsrParams
+// (which may hold segments recorded on the way to a failed or trailing-slash match).
+func (fox *Router) VerifRecorded(method, hostPort, path string) (found, tsr bool, params, tsrParams []Param) {
+	tree := fox.getRoot()
+	c := tree.ctx.Get().(*cTx)
+	c.resetNil()
+	n, tsr := tree.lookup(method, hostPort, path, c, false)
+	params = append(params, *c.params...)
+	tsrParams = append(tsrParams, *c.tsrParams...)
+	*c.params = (*c.params)[:0]
+	tree.ctx.Put(c)
+	return n != nil, tsr, params, tsrParams
+}
